@@ -354,6 +354,17 @@ func c13Run(cw *c13World, c c13Case, name string) (sig, msg string, nontrivial b
 	if len(raw.Live) != len(s.Live) {
 		return "admitted-twice", "a vertex hash occurs twice in the ledger", nontrivial, ""
 	}
+	// "exactly the ledger it would have had": the transaction index is part of it - every admitted vertex's transaction
+	// resolves to that vertex (a parked copy retried after another copy was admitted must not undo that)
+	for h, v := range s.Live {
+		tgt, ok := raw.Index[v.Transaction.Hash]
+		if !ok {
+			return "index-entry-lost", fmt.Sprintf("vertex %x is in the ledger but its transaction %x has no index entry (parents-first delivery leaves one)", h[:4], v.Transaction.Hash[:4]), nontrivial, ""
+		}
+		if string(tgt) != string(h[:]) {
+			return "index-entry-wrong", fmt.Sprintf("the index entry of transaction %x points at %x, the transaction is in vertex %x", v.Transaction.Hash[:4], tgt, h[:4]), nontrivial, ""
+		}
+	}
 	for _, h := range append(invalid, forever...) {
 		if _, ok := s.Live[h]; ok {
 			return "invalid-admitted", fmt.Sprintf("invalid / unreachable vertex %x ended up in the ledger", h[:4]), nontrivial, ""
